@@ -387,7 +387,12 @@ def gen_pds_items(rng, enc, ncarriers, want_carriers=None):
     from .ref import codec
     for attempt in range(20):
         n = rng.choice([1, 2, 3, 5, 10, 25, 60]) if want_carriers is None else rng.randint(want_carriers, want_carriers * 12)
-        tags = sorted(rng.sample(range(1, 10000), n))
+        tags = sorted(rng.sample(range(0, 10000), n))
+        if rng.random() < 0.2:
+            tags[0] = 0                      # tag 0000 is a tag like any other
+        if rng.random() < 0.1:
+            tags[-1] = 9999
+        tags = sorted(set(tags))
         items = {}
         for t in tags:
             r = rng.random()
